@@ -163,6 +163,13 @@ func (va *VaralignBlock) Process(mkline *MkLine) {
 
 func (va *VaralignBlock) processVarassign(mkline *MkLine) {
 	switch {
+	case mkline.fix != nil && mkline.fix.modified:
+		// Another fix has changed the raw text of the line, which may
+		// not even be a variable assignment anymore.
+		// Leave the alignment of this block to the next run.
+		va.skip = true
+		return
+
 	case mkline.Op() == opAssignEval && matches(mkline.Varname(), `^[a-z]`):
 		// Arguments to procedures do not take part in block alignment.
 		//
